@@ -50,4 +50,6 @@ CORPUS = [
     # benign
     T('c04-benign-transpose-for-inverse', ABS, "            @ (v.inverse() @ sqrt_pi).reshape(", "            @ (v.transpose(-1, -2) @ sqrt_pi).reshape(", benign=True),
     T('c04-benign-hky-reorder-terms', NUC, "                -(pi[..., 1] + kappa * pi[..., 2] + pi[..., 3]),", "                -(pi[..., 3] + pi[..., 1] + pi[..., 2] * kappa),", benign=True),
+    Mut('c04-eigen-of-perturbed-matrix', 'torchtree/evolution/substitution_model/abstract.py', 'SymmetricSubstitutionModel.eigen', 'return torch.linalg.eigh(Q)', 'return torch.linalg.eigh(Q + 1e-08 * torch.eye(Q.shape[-1]))',
+        expect=[('C04.E', 'SymmetricSubstitutionModel.eigen::decomposes-its-argument-unchanged')]),
 ]
